@@ -52,6 +52,10 @@ type Program struct {
 	byBody  map[ast.Node]*Func // FuncDecl / FuncLit -> Func
 	byObj   map[*types.Func]*Func
 	allFunc []*Func
+	// renamed: full name of a function that is new on this tree -> full name it had when the rules
+	// were written (aliasRenamed); Notes collects what the loader inferred
+	renamed map[string]string
+	Notes   []string
 }
 
 // Func is a function declaration or a function literal with its own CFG.
@@ -158,6 +162,7 @@ func (p *Program) index() {
 	p.byBody = map[ast.Node]*Func{}
 	p.byObj = map[*types.Func]*Func{}
 	p.allFunc = nil
+	defer p.aliasRenamed()
 	for _, pk := range p.All {
 		for _, file := range pk.Syntax {
 			for _, d := range file.Decls {
@@ -332,4 +337,105 @@ func (f *Func) Graph() *Graph {
 		f.g = newGraph(f, g)
 	}
 	return f.g
+}
+
+// aliasRenamed recognises a function of the frozen table that was merely
+// renamed: it is missing from the tree, and exactly one function that is new on
+// the tree has the same package, the same receiver type and the same parameter
+// names. The rules, which anchor some functions by name, then find it under its
+// old name (reports still give its real position).
+func (p *Program) aliasRenamed() {
+	p.renamed = map[string]string{}
+	cur := map[string]*Func{}
+	for _, f := range p.allFunc {
+		if f.Decl != nil && f.Obj != nil {
+			cur[f.Obj.FullName()] = f
+		}
+	}
+	split := func(full string) (prefix, name string) {
+		i := strings.LastIndex(full, ".")
+		return full[:i], full[i+1:]
+	}
+	sameNames := func(a []string, f *Func) bool {
+		var b []string
+		for _, fl := range f.Type.Params.List {
+			for _, nm := range fl.Names {
+				b = append(b, nm.Name)
+			}
+		}
+		if len(a) != len(b) {
+			return false
+		}
+		for i := range a {
+			if a[i] != b[i] {
+				return false
+			}
+		}
+		return true
+	}
+	missing := map[string][]string{} // prefix -> old full names
+	for full := range frozenParams {
+		if _, ok := cur[full]; ok {
+			continue
+		}
+		pre, _ := split(full)
+		// only for packages that are loaded at all
+		pkgPath := strings.TrimPrefix(strings.TrimPrefix(pre, "("), "*")
+		if i := strings.LastIndex(pkgPath, "."); strings.HasPrefix(pre, "(") && i >= 0 {
+			pkgPath = pkgPath[:i]
+		}
+		if p.Pkgs[pkgPath] == nil {
+			continue
+		}
+		missing[pre] = append(missing[pre], full)
+	}
+	fresh := map[string][]*Func{}
+	for full, f := range cur {
+		if _, known := frozenParams[full]; !known {
+			pre, _ := split(full)
+			fresh[pre] = append(fresh[pre], f)
+		}
+	}
+	for pre, olds := range missing {
+		for _, old := range olds {
+			var cands []*Func
+			for _, f := range fresh[pre] {
+				if sameNames(frozenParams[old], f) {
+					cands = append(cands, f)
+				}
+			}
+			// unambiguous both ways
+			n := 0
+			for _, o2 := range olds {
+				if len(cands) == 1 && sameNames(frozenParams[o2], cands[0]) {
+					n++
+				}
+			}
+			if len(cands) != 1 || n != 1 {
+				continue
+			}
+			f := cands[0]
+			_, oldName := split(old)
+			short := strings.TrimSuffix(f.Name, f.Decl.Name.Name) + oldName
+			if _, taken := p.funcs[short]; taken {
+				continue
+			}
+			p.renamed[f.Obj.FullName()] = old
+			p.Notes = append(p.Notes, fmt.Sprintf("%s is taken to be the renamed %s (same package, receiver and parameters; the old name is gone)", f.Name, short))
+			delete(p.funcs, f.Name)
+			f.Name = short
+			p.funcs[short] = f
+			// literals nested in it are named after it
+			var ren func(parent *Func)
+			ren = func(parent *Func) {
+				for i, l := range parent.Lits {
+					delete(p.funcs, l.Name)
+					l.Name = fmt.Sprintf("%s$%d", parent.Name, i+1)
+					p.funcs[l.Name] = l
+					ren(l)
+				}
+			}
+			ren(f)
+		}
+	}
 }
